@@ -108,7 +108,7 @@ func (c *c17) concurrentStart(ch *kernel.Chooser) string {
 		var evs []kernel.Event
 		for _, p := range sched.ParkedTasks() {
 			p := p
-			evs = append(evs, kernel.Event{Name: "wake:" + p.Task + "@" + p.Point, Drain: true, Apply: func() { sched.Release(p.Task, "go") }})
+			evs = append(evs, kernel.Event{Name: "wake:" + p.Task + "@" + p.Point, Task: p.Task, Drain: true, Apply: func() { sched.Release(p.Task, "go") }})
 		}
 		return evs
 	}, nil); err != nil {
@@ -473,7 +473,7 @@ func (c *c17) concurrentDeliver(ch *kernel.Chooser) string {
 		var evs []kernel.Event
 		for _, p := range sched.ParkedTasks() {
 			p := p
-			evs = append(evs, kernel.Event{Name: "wake:" + p.Task + "@" + p.Point, Drain: true, Apply: func() { sched.Release(p.Task, "go") }})
+			evs = append(evs, kernel.Event{Name: "wake:" + p.Task + "@" + p.Point, Task: p.Task, Drain: true, Apply: func() { sched.Release(p.Task, "go") }})
 		}
 		return evs
 	}, nil); err != nil {
